@@ -2,13 +2,13 @@
 (* C08: the IDEAL reading of a command line by the libast option parser, written as a step      *)
 (* machine over the argument vector: one action per spelling, cursor (i, l) = (word, letter).   *)
 (*                                                                                              *)
-(* A behaviour = one program run: Init picks an option table, the parser settings and an        *)
-(* argument vector; with PREPARSE set the pre-parse pass runs first and the normal pass after   *)
-(* it (two calls of spifopt_parse); with REMOVE_ARGS set the normal pass ends with the          *)
-(* compaction of argv, modelled at mechanism level (read/write cursors) and compared with the   *)
-(* reference filter.  When a behaviour is finished its expected results (targets, argv, bad     *)
-(* count, settings flags, per pass) are handed to Emit - MC_OptParse prints them as one JSON    *)
-(* line, the harness executes the same run on the real parser.                                  *)
+(* A behaviour = one program run: Init picks an option table, an argument vector and a HISTORY of *)
+(* spifopt_parse() calls over that same argv/argc - each call with the settings the program set  *)
+(* before it (PREPARSE: a pre-parse pass; REMOVE_ARGS: a normal pass ends with the compaction of  *)
+(* argv, modelled at mechanism level and compared with the reference filter).  Targets, the bad   *)
+(* count and a compacted argv carry over from call to call.  When a behaviour is finished the     *)
+(* expected results of every call (targets, argv, bad count, settings flags) are handed to Emit - *)
+(* MC_OptParse prints them as one JSON line, the harness executes the same run on the real parser.*)
 (*                                                                                              *)
 (* Rule kinds (DESIGN.md 3 / 8a): S stated, C as-built convention (strict), E AllowEither,      *)
 (* X excluded from the argument universe (behaviour ends "not strict": only safety is checked). *)
